@@ -129,7 +129,7 @@ func init() {
 			return []string{"release", "noopt", "nooptl", "race"}
 		},
 		Required: []string{"cmp/equal", "cmp/prefix", "cmp/differ", "cmp/same-bytelen", "cmp/diff-bytelen", "cmp/empty-vs-nonempty", "upto/a-shorter", "upto/a-equal", "upto/a-longer",
-			"upto/empty-b", "upto/unaligned-b", "upto/long>=8", "upto/short<8", "str/site=arg", "str/site=field", "str/site=elem", "str/site=closure", "str/site=map", "str/site=substr"},
+			"upto/empty-b", "upto/unaligned-b", "upto/dirty-spare-capacity", "upto/long>=8", "upto/short<8", "str/site=arg", "str/site=field", "str/site=elem", "str/site=closure", "str/site=map", "str/site=substr"},
 		Families: func(c *mon.Config) []mon.Family {
 			rows := 4051
 			step := 1
@@ -204,6 +204,29 @@ func c09CheckUpto(w *mon.W, a string, b *c09Enc) bool {
 		w.Fail("CmpUpto/input-modified", d("CmpUpto", got))
 		return false
 	}
+	// the same bytes inside a larger buffer whose spare capacity is dirty: bytes beyond len(a) are not
+	// part of the argument, so the result must not change and they must not be written
+	for _, poison := range [2]byte{0x00, 0xff} {
+		big := make([]byte, len(a)+20)
+		for i := range big {
+			big[i] = poison
+		}
+		copy(big[4:], a)
+		dirty := big[4 : 4+len(a)]
+		if g2 := bitstr.CmpUpto(dirty, b.enc); g2 != exp {
+			dd := d("CmpUpto(dirty spare capacity)", g2)
+			dd["bytes_beyond_len"] = fmt.Sprintf("%#x", poison)
+			w.Fail("CmpUpto/depends-on-bytes-beyond-len", dd)
+			return false
+		}
+		for i, c := range big {
+			if (i < 4 || i >= 4+len(a)) && c != poison {
+				w.Fail("CmpUpto/wrote-beyond-len", d("CmpUpto(dirty spare capacity)", got))
+				return false
+			}
+		}
+	}
+	w.Bucket("upto/dirty-spare-capacity")
 	switch {
 	case na < nb:
 		w.Bucket("upto/a-shorter")
@@ -260,7 +283,7 @@ func c09CheckUpto(w *mon.W, a string, b *c09Enc) bool {
 			return false
 		}
 	}
-	w.Eval(7)
+	w.Eval(9)
 	return true
 }
 
